@@ -66,6 +66,9 @@ def run_shard(rec, tier, seed, shard, nshards):
     n_screens = {"quick": 60, "thorough": 500}[tier]
     for si in range(n_screens):
         kw = gen.realistic_screen_kwargs(rng, n_rows=(1, 30), n_plates=(1, 6), p_dup=0.35, observed=str(rng.choice(["random", "some", "none", "all"])), arity=int(rng.choice([1, 2, 2])))
+        if si == 1:
+            kw = gen.realistic_screen_kwargs(rng, n_samples=(3, 8), n_drugs=(4, 8), n_rows=(1500, 4500), n_plates=(10, 60), p_dup=0.3, observed="random")
+            rec.count("large_screens")
         root = Screen(**kw)
         parents = [root]
         # pool entries: [view, parent_index, idx tuple, depth, frozen bytes of selection]
